@@ -372,48 +372,38 @@ func c20r5(c *core.Ctx) {
 			subject := fmt.Sprintf("%s: %s", name, m.ExprString(be))
 			// how is the test used? (a) as (part of) a returned boolean; (b) as the condition of an if whose
 			// nil branch returns nil / a boolean, panics or continues
+			// What happens when the column is nil? Stated on paths: the test is a returned boolean (presence report), or
+			// on every path from the nil outcome nothing with an effect happens before the function reports absence
+			// (returns only nil/false/true), panics, or goes on to the next element of the enclosing loop.
 			verdict, why := "absorbed", ""
-			var encl *ast.IfStmt
 			core.InspectNoLits(f.Body, func(y ast.Node) bool {
-				if is, ok := y.(*ast.IfStmt); ok && is.Cond.Pos() <= be.Pos() && be.End() <= is.Cond.End() {
-					encl = is
-				}
 				if rs, ok := y.(*ast.ReturnStmt); ok && rs.Pos() <= be.Pos() && be.End() <= rs.End() {
 					verdict, why = "reported", "the test is the returned boolean (presence report)"
 				}
 				return true
 			})
-			if encl != nil {
-				branch := encl.Body.List
+			if verdict != "reported" {
+				nilVal := 1
 				if be.Op == token.NEQ {
-					// `if col != nil {...}`: the nil case is the else / fall-through: accept only if nothing follows that dereferences... keep strict
-					branch = nil
-					if eb, ok := encl.Else.(*ast.BlockStmt); ok {
-						branch = eb.List
-					}
+					nilVal = 0
 				}
-				for _, st := range branch {
-					switch y := st.(type) {
-					case *ast.ReturnStmt:
-						okRet := len(y.Results) > 0
-						for _, r := range y.Results {
-							rs := m.ExprString(r)
-							if rs != "nil" && rs != "false" && rs != "true" {
-								okRet = false
+				okPaths, _ := noEffectOnOutcome(c, f, be, nilVal, func(n ast.Node) string {
+					if rs, ok := n.(*ast.ReturnStmt); ok {
+						for _, r := range rs.Results {
+							if s := m.ExprString(r); s != "nil" && s != "false" && s != "true" {
+								return "returns " + s
 							}
 						}
-						if okRet {
-							verdict, why = "reported", "the nil branch returns nil/false (documented absence report)"
-						}
-					case *ast.BranchStmt:
-						if y.Tok == token.CONTINUE {
-							verdict, why = "reported", "the nil branch skips the relation (components the table does not have cannot mismatch)"
-						}
-					case *ast.ExprStmt:
-						if call, ok := y.X.(*ast.CallExpr); ok && m.IsBuiltin(call, "panic") {
-							verdict, why = "reported", "the nil branch panics"
-						}
+						return "stop"
 					}
+					// naming a value on the way (tp, _ := registry.ComponentType(id) before the panic) absorbs nothing
+					if as, ok := n.(*ast.AssignStmt); ok && as.Tok == token.DEFINE && len(c.Eff.StoresAt(f, as)) == 0 {
+						return "skip"
+					}
+					return ""
+				})
+				if okPaths {
+					verdict, why = "reported", "on the nil outcome nothing happens before absence is reported (nil/false/true result), a panic, or the next loop element"
 				}
 			}
 			if verdict == "reported" {
